@@ -360,7 +360,7 @@ func (h *H) checkTermRegress(view string) {
 		return
 	}
 	term := atoi(v[1])
-	if term >= h.fencedTerm {
+	if term >= h.fencedTerm || h.fencedTerm < 0 {
 		return
 	}
 	switch {
